@@ -47,6 +47,7 @@ FIXES = [
  ('C08','a long hunk header colored by git is exempt','delta.rs: a hunk header longer than max-line-length was truncated when git had coloured it (`ESC[36m@@ ...`) but not when uncoloured: the exemption tested the raw line for a leading `@@`'),
  ('C04','(never truncate) is honoured in side-by-side mode too','wrapping.rs: with side-by-side and wrapping, `--max-line-length 0` (documented: never truncate) was replaced by a computed finite limit (max(0, computed)), so long pass-through and hunk lines were cut although the user asked for no truncation'),
  ('C08','only treated as a line ending when nothing but escape sequences follows','delta.rs: a carriage return inside a line followed only by zero-width text (combining characters) was removed from uncoloured input (the rest had display width 0) but kept when git had coloured the same line, so coloured and plain input rendered differently (also C04: a byte of passed-through text dropped)'),
+ ('C14',"in output of standalone diff is not dropped when it follows another file","diff_header_misc.rs: in `diff -r` output a `Binary files a/y and b/y differ` line that follows another file's section was swallowed (the previous file's names got the `(binary file)` annotation, no header was written): the binary file was not reported at all"),
 ]
 out = []
 for prop, pat, what in FIXES:
